@@ -109,6 +109,7 @@ class Interp:
         self.trace_pos = 0
         self.fresh_counter = {}
         self.suppress_effects = 0
+        self.local_fns = {}
 
     def alloc(self, v):
         a = self.next_addr
@@ -494,6 +495,7 @@ class Interp:
                 # local fn item: register in the innermost scope as FnRef
                 fd = FnDef(it, self.frame.module, self.frame.self_ty)
                 self.bind(it['name'], FnRef(fd=fd))
+                self.local_fns[it['name']] = fd      # visible to itself (recursion) and to sibling items
                 return UNIT
             if it['k'] in ('Use',):
                 return UNIT
@@ -1089,6 +1091,8 @@ class Interp:
             if ctor is not None:
                 return ctor
             fd = self.prog.lookup_fn(self.frame.module, segs, self.frame.self_ty)
+            if fd is None and len(segs) == 1 and segs[0] in self.local_fns:
+                fd = self.local_fns[segs[0]]
             args = [self.eval(x) for x in e['args']]
             if fd is not None:
                 if fd.is_async:
